@@ -77,3 +77,5 @@ ITEMS = [
        }),
 ]
 CANARIES = ['is_authorized_batched']
+# assumed contract ("only records which uids have a record"): reviewed, not verified here
+WATCH = [('cedar-policy-core/src/tpe/entities.rs', 'impl PartialEntities > fn add_entities')]
